@@ -141,6 +141,33 @@ def decompressVec (t : Table) (input : List UInt8) : Option (List UInt8) :=
   | .ok out => some out
   | _ => none
 
+/-! ### a faster, proven-equal evaluation of `decompress` for drivers
+(`Tw.Huffman.decompressFast_eq`): the remaining capacity is carried along instead of measuring
+`out.length` at every output byte -/
+
+def decBitsF (t : Table) : Nat → Nat → List UInt8 → List Bool → BitsResult
+  | _, nd, out, [] => .more nd out
+  | rem, nd, out, b :: bs =>
+    let idx := child t nd b
+    if idx ≥ NUM_SYMBOLS then decBitsF t rem idx out bs
+    else if idx = EOF then .fin (.ok out.reverse)
+    else if rem = 0 then .fin .capacity
+    else decBitsF t (rem - 1) ROOT_IDX (UInt8.ofNat idx :: out) bs
+
+def decZerosF (t : Table) : Nat → Nat → Nat → List UInt8 → DecResult
+  | _, 0, _, _ => .diverge
+  | rem, fuel + 1, nd, out =>
+    let idx := child t nd false
+    if idx ≥ NUM_SYMBOLS then decZerosF t rem fuel idx out
+    else if idx = EOF then .ok out.reverse
+    else if rem = 0 then .capacity
+    else decZerosF t (rem - 1) fuel ROOT_IDX (UInt8.ofNat idx :: out)
+
+def decompressFast (t : Table) (input : List UInt8) (cap : Nat) : DecResult :=
+  match decBitsF t cap ROOT_IDX [] (input.flatMap byteBits) with
+  | .fin r => r
+  | .more nd out => decZerosF t (cap - out.length) (zeroFuel cap) nd out
+
 /-! ### Well-formed tables (decidable) -/
 
 /-- follow `bits` from inner node `nd`; `some s` iff the last bit, and no earlier one, lands on
